@@ -529,6 +529,9 @@ func init() {
 					{"small", 2, -1, 1, true, false, "fresh", prop, false, false},
 					{"small", 2, -1, 0, false, true, "started", prop, false, false},
 					{"small", 1, -1, 0, false, true, "fresh", prop, false, false},
+					// queries work the same on a stopped engine: every row, and failures are reported
+					{"small", 2, -1, 0, false, false, "stopped", prop, false, false},
+					{"small", 1, -1, 0, false, true, "stopped", prop, false, false},
 					{"big", 2, 65, 2, false, false, "fresh", prop, false, false},
 					// preemption-bounded (not delay-bounded, see below): a Next in progress while the
 					// context is cancelled and the pipeline winds down (finding F12)
